@@ -290,7 +290,10 @@ func scenario(c *run.Ctx, idx int) {
 			"scenario": idx, "height": blk.Height(), "deputies": nDep, "candidates": shape, "included": len(blk.Txs), "discarded": nd, "hash": blk.Hash().Hex()})
 		cl.Adopt(blk)
 		if cl.MustStabiliseSoon() || r.Chance(1, 2) {
-			cl.StabiliseAll()
+			if !cl.StabiliseAll() {
+				c.Stat("scenario_stuck_unstabilisable", 1)
+				break
+			}
 		}
 	}
 }
